@@ -1,2 +1,16 @@
 import SparseV.Props.C05
 #print axioms SparseV.C05.sort_preserves_get
+#print axioms SparseV.C05.build_get
+#print axioms SparseV.C05.build_get_nodup
+#print axioms SparseV.C05.allIdx_facts
+#print axioms SparseV.C05.fromDense_todense
+#print axioms SparseV.C05.todense_fromDense
+#print axioms SparseV.C05.todense_fromDense_get
+#print axioms SparseV.C05.uncompress_indptrOf
+#print axioms SparseV.C05.tocoo_fromCoo_get
+#print axioms SparseV.C05.tocoo_fromCoo_ok
+#print axioms SparseV.C05.transpose_get
+#print axioms SparseV.C05.chain_preserves
+#print axioms SparseV.C05.step_preserves
+#print axioms SparseV.C05.chain_preserves_all
+#print axioms SparseV.C05.roundtrip_via
